@@ -84,9 +84,16 @@ def route_rules(ctx: Ctx, rule: str, ops=("enqueue", "requeue", "reject")) -> No
             continue  # in-memory reject: see R-C01-SOURCE (known finding)
         f = ctx.func(f"{C.INMEM_BROKER}.{op}")
         g = flow.inline(f, ctx.res, ctx.depth, lambda n, cal: cal.cls is not None and cal.cls.qualname == C.INMEM_BROKER and cal.name not in C.BROKER_OPS)
-        puts = [n for n in g.calls() if C.attr_chain(n.ast.func)[-2:] == ["simple", "put_nowait"]]
-        dels = [n for n in g.calls() if "delayed" in C.attr_chain(n.ast.func) and C.attr_chain(n.ast.func)[-1] in ("append", "setdefault")
-                and C.attr_chain(n.ast.func)[-1] == "append"]
+        from .brokers import inmem_event
+
+        def place_fn(n):
+            fe = n.ast.func
+            if isinstance(fe, ast.Attribute) and isinstance(fe.value, ast.Name) and fe.value.id not in ("self", "q"):
+                fe = C.resolve_base(n.func, fe)  # `bucket = ...delayed.setdefault(t, [])`; `bucket.append(m)`
+            return fe
+
+        puts = [n for n in g.calls() if (inmem_event(n) or ("", ""))[:2] == ("+", "waiting")]
+        dels = [n for n in g.calls() if (inmem_event(n) or ("", ""))[:2] == ("+", "delayed")]
         if not ctx.check(bool(puts) and bool(dels), rule, f, f"in-memory {op}: both insertion places present",
                          "waiting and delayed insertions found", f"in-memory {op} has no insertion into {'the waiting queue' if not puts else 'the delayed map'}: "
                          "a message with a due time would be delivered at once (or an immediate one never)", instance=f"in-memory {op}: places"):
@@ -114,11 +121,12 @@ def route_rules(ctx: Ctx, rule: str, ops=("enqueue", "requeue", "reject")) -> No
                       node=dels[0], instance=f"in-memory {op}: route[{'none' if is_none else 'due'}]")
         # delayed key = the due time itself; helper argument = the op's params
         for d in dels:
-            sd = [c for c in ast.walk(d.ast.func) if isinstance(c, ast.Call) and isinstance(c.func, ast.Attribute) and c.func.attr == "setdefault"]
+            dfn = place_fn(d)
+            sd = [c for c in ast.walk(dfn) if isinstance(c, ast.Call) and isinstance(c.func, ast.Attribute) and c.func.attr == "setdefault"]
             keyexpr = sd[0].args[0] if sd and sd[0].args else None
             if keyexpr is None:
                 # delayed[k].append form
-                subs = [s for s in ast.walk(d.ast.func) if isinstance(s, ast.Subscript) and isinstance(s.value, ast.Attribute) and s.value.attr == "delayed"]
+                subs = [s for s in ast.walk(dfn) if isinstance(s, ast.Subscript) and isinstance(s.value, ast.Attribute) and s.value.attr == "delayed"]
                 keyexpr = subs[0].slice if subs else None
             ok = isinstance(keyexpr, ast.Name) and keyexpr.id in names
             ctx.check(ok, rule, f, f"in-memory {op}: delayed key is the due time", "stored under its due time",
@@ -390,40 +398,58 @@ def rounding(ctx: Ctx, rule: str) -> None:
 def compare(ctx: Ctx, rule: str) -> None:
     f = ctx.func(f"{C.INMEM_CONS}.__update_delayed")
     g = ctx.cfg(f)
-    puts = [n for n in g.calls() if C.attr_chain(n.ast.func)[-2:] == ["simple", "put_nowait"]]
-    pops = [n for n in g.nodes if n.kind in ("call", "store") and "delayed" in (n.label or "") and (".pop(" in n.label or "del " in n.label)]
+    puts = [n for n in g.calls() if C.attr_chain(C.resolve_base(f, n.ast.func))[-2:] == ["simple", "put_nowait"]]
+    pops = [n for n in g.calls() if C.attr_chain(C.resolve_base(f, n.ast.func))[-1] == "pop" and "delayed" in C.attr_chain(C.resolve_base(f, n.ast.func))]
+    pops += [n for n in g.nodes if n.kind == "store" and "del " in (n.label or "") and "delayed" in C.utext(f, n.ast, calls="all")]
     ctx.require(bool(puts), f"{f.qualname}: no put into the waiting queue (anchor vanished)")
-    # the loop variable holding the due time, and 'now'
-    loops = [n for n in ast.walk(f.node) if isinstance(n, ast.For) and _mentions(n.iter, "delayed")]
-    ctx.require(len(loops) >= 1, f"{f.qualname}: loop over the delayed map not found")
-    tvar = None
-    tgt = loops[0].target
-    if isinstance(tgt, ast.Tuple) and isinstance(tgt.elts[0], ast.Name):
-        tvar = tgt.elts[0].id
-    elif isinstance(tgt, ast.Name):
-        tvar = tgt.id
-    ctx.require(tvar is not None, f"{f.qualname}: due-time loop variable not recognised")
+    # the iteration variables holding a due time (loops and comprehensions over the delayed map), and 'now'
+    def over_delayed(it):
+        return _mentions(C.inline_locals(f, it, calls="all") or it, "delayed")
+
+    def first_name(tgt):
+        if isinstance(tgt, ast.Tuple) and tgt.elts and isinstance(tgt.elts[0], ast.Name):
+            return tgt.elts[0].id
+        return tgt.id if isinstance(tgt, ast.Name) else None
+
+    loops = [n for n in ast.walk(f.node) if isinstance(n, ast.For) and over_delayed(n.iter)]
+    comps = [(c, gen) for c in ast.walk(f.node) if isinstance(c, (ast.ListComp, ast.SetComp, ast.GeneratorExp, ast.DictComp)) for gen in c.generators if over_delayed(gen.iter)]
+    ctx.require(len(loops) + len(comps) >= 1, f"{f.qualname}: scan of the delayed map not found")
+    tvars = {first_name(lp.target) for lp in loops} | {first_name(gen.target) for _, gen in comps}
+    tvars.discard(None)
+    ctx.require(bool(tvars), f"{f.qualname}: due-time loop variable not recognised")
     nows = [nm for nm in {x.id for x in ast.walk(f.node) if isinstance(x, ast.Name)} if any(
         isinstance(d, ast.Call) and (dotted(d.func) or "").endswith("datetime.now") and not d.args for d in C.local_defs(f, nm))]
     ctx.check(len(nows) >= 1, rule, f, "in-memory due test compares with datetime.now()", "current time",
               "__update_delayed does not compare due times with a plain datetime.now()", instance="in-memory now")
+    filt = [c for comp, gen in comps for c in gen.ifs]  # comprehension filters select the entries that are moved
     for ordering, want in (("gt", False), ("lt", True)):
         env = {}
         for cmp_ in ast.walk(f.node):
             if isinstance(cmp_, ast.Compare) and len(cmp_.ops) == 1:
                 l, r = cmp_.left, cmp_.comparators[0]
                 if isinstance(l, ast.Name) and isinstance(r, ast.Name):
-                    if l.id == tvar and r.id in nows:
+                    if l.id in tvars and r.id in nows:
                         env[("ord", l.id, r.id)] = ordering
-                    elif r.id == tvar and l.id in nows:
+                    elif r.id in tvars and l.id in nows:
                         env[("ord", l.id, r.id)] = {"lt": "gt", "gt": "lt"}[ordering]
         ctx.require(bool(env), f"{f.qualname}: comparison between the due time and now not found")
         r_ = flow.reach_under(g, env, flow.NORMAL_KINDS)
         moved = any(p.id in r_ for p in puts)
+        if filt:
+            sel = [flow.eval_cond(c, env, f) for c in filt]
+            ctx.require(all(v is not None for v in sel), f"{f.qualname}: filter of the due-time selection not decidable from the due/now ordering")
+            moved = moved and all(sel)
         ctx.check(moved == want, rule, f, f"in-memory due test [due {ordering} now]", f"message {'moved to waiting' if want else 'stays delayed'}",
                   f"__update_delayed with due time {'after' if ordering == 'gt' else 'before'} now {'moves' if moved else 'does not move'} the message "
                   f"to the waiting queue" + (" - it becomes deliverable before its due time" if ordering == "gt" else " - it is never delivered"),
                   node=puts[0], instance=f"in-memory due ordering {ordering}")
+    if filt:
+        # the moving loop runs over exactly what the filter selected
+        selected = {t.id for n in ast.walk(f.node) if isinstance(n, ast.Assign) and any(n.value is c for c, _ in comps) for t in n.targets if isinstance(t, ast.Name)}
+        mv = [lp for lp in ast.walk(f.node) if isinstance(lp, ast.For) and ((isinstance(lp.iter, ast.Name) and lp.iter.id in selected) or any(lp.iter is c for c, _ in comps))
+              and any(isinstance(c, ast.Call) and C.attr_chain(C.resolve_base(f, c.func))[-2:] == ["simple", "put_nowait"] for c in ast.walk(lp))]
+        ctx.check(bool(mv), rule, f, "selected due entries are the ones moved", "the moving loop iterates over the filtered keys",
+                  "__update_delayed does not move exactly the entries its due-time filter selected", instance="in-memory due selection used")
     # every entry is examined: the map is keyed by due time in insertion order, not sorted
     for lp in loops:
         exits = [x for st in lp.body for x in ast.walk(st) if isinstance(x, (ast.Break, ast.Return))]
@@ -431,6 +457,8 @@ def compare(ctx: Ctx, rule: str) -> None:
         ctx.check(not exits or sorted_iter, rule, f, "delayed refresh examines every entry", "no early exit from the scan of an unsorted map",
                   "__update_delayed leaves its scan of the delayed map early (break/return) although the map is in insertion order, not sorted by due time: a due message filed "
                   "behind a later-due one is never moved to the waiting queue (forgotten)", node=exits[0] if exits else None, instance="in-memory refresh exhaustive")
+    if not loops:
+        ctx.ok(rule, "in-memory refresh exhaustive", "the delayed map is scanned by a comprehension (no early exit possible)")
     # moved messages are removed from the delayed map (not duplicated)
     ctx.check(bool(pops), rule, f, "moved entries removed from the delayed map", "no duplicate left behind",
               "__update_delayed copies due messages to the waiting queue without removing them from the delayed map (delivered again on every refresh)",
